@@ -672,6 +672,8 @@ SequenceOfLabelsGetSize(const uint8_t *buf, size_t buf_size, size_t *name_len_re
 	cur_pos = buf;
 	max_pos = (cur_pos + buf_size);
 	for (;;) {// перебираем все куски текста
+		if (cur_pos >= max_pos)
+			return (EBADMSG); /* Out of buf range. */
 		label = (*cur_pos);
 		cur_pos ++; // now it points to data
 		switch((label & SEQ_LABEL_CTRL_MASK)){
@@ -690,6 +692,8 @@ SequenceOfLabelsGetSize(const uint8_t *buf, size_t buf_size, size_t *name_len_re
 			(*name_len_ret) = (size_t)(cur_pos - buf);
 			return (0);// XXX if its wrong, then error will be generated in other place
 		case SEQ_LABEL_CTRL_COMPRESSED: //11------ // RFC 1035 4.1.4: 14 bits = offset from the start of the message
+			if ((cur_pos + 1) > max_pos)
+				return (EBADMSG); /* Out of buf range. */
 			(*name_len_ret) = (size_t)((cur_pos - buf) + 1); // 1 = 1 offset byte (low 8 bits of offset)
 			return (0);
 		}
@@ -718,6 +722,8 @@ SequenceOfLabelsToDomainName(const uint8_t *buf, size_t buf_size, uint8_t *name,
 	cur_pos = buf;
 	max_pos = (cur_pos + buf_size);
 	for (;;) {// перебираем все куски текста
+		if (cur_pos >= max_pos)
+			return (EBADMSG); /* Out of buf range. */
 		label = (*cur_pos);
 		if ((label & SEQ_LABEL_CTRL_MASK) != SEQ_LABEL_CTRL_LEN)
 			return (EOPNOTSUPP);// unsupported label type (possible ends)
@@ -727,7 +733,7 @@ SequenceOfLabelsToDomainName(const uint8_t *buf, size_t buf_size, uint8_t *name,
 		if ((cur_pos + label) > max_pos)
 			return (EBADMSG); /* Out of buf range. */
 		if (0 == label) { // null label = end of name, ALL DONE!!!
-			if (0 != (cur_pos - buf)) { // clear last dot
+			if (1 < (cur_pos - buf)) { // clear last dot
 				name --;
 			}
 			(*name) = 0; // set zero at the end
@@ -737,6 +743,8 @@ SequenceOfLabelsToDomainName(const uint8_t *buf, size_t buf_size, uint8_t *name,
 			return (0);
 		}
 
+		if ((size_t)(cur_pos - buf) + label > name_buf_size)
+			return (EOVERFLOW); /* No terminating null label: out of name buf. */
 		memcpy(name, cur_pos, label);
 		name += label;
 		(*name) = '.';
